@@ -131,10 +131,39 @@ class ManagedRoles:
                 continue
             if a['vis'] == 'pub':
                 continue
-            if any(self.OBJINNER in fl['parts']['adts'] for v in a['variants'] for fl in v['fields']):
+            def holds_inner(parts, depth=0):
+                # directly, or through a private helper type of the module (`enum Custody { Guarded(ObjectInner), HandedOn }`)
+                if self.OBJINNER in parts['adts']:
+                    return True
+                if depth >= 2:
+                    return False
+                for ap in parts['adts']:
+                    a2 = c.adt(ap)
+                    if a2 is not None and ap.startswith('deadpool::managed::') and a2['vis'] != 'pub' and ap not in (self.OBJECT, self.SLOTS, self.INNER, a['path']):
+                        if any(holds_inner(f2['parts'], depth + 1) for v2 in a2['variants'] for f2 in v2['fields']):
+                            return True
+                return False
+            if any(holds_inner(fl['parts']) for v in a['variants'] for fl in v['fields']):
                 if any(i.get('trait') == 'std::ops::Drop' and adt_of(i['self_ty']) == a['path'] for i in c.impls):
                     cands.append(a['path'])
         self.UNREADY = _one(cands, 'guard type owning a not-yet-ready object')
+        # the typestate fields: where Object / the not-ready guard keep their object while they own it - an Option, or a two-state
+        # private enum (one variant with the object, one without), whatever the field is called
+        def _maybe_inner(f_):
+            ty = f_['ty']
+            if ty.startswith('std::option::Option<') and self.OBJINNER in f_['parts']['adts']:
+                return True
+            a2 = c.adt(adt_of(ty) or '')
+            return a2 is not None and adt_of(ty) != self.OBJINNER and len(a2.get('variants', [])) == 2 and \
+                sorted(bool(v2['fields']) for v2 in a2['variants']) == [False, True] and \
+                any(self.OBJINNER in f2['parts']['adts'] for v2 in a2['variants'] for f2 in v2['fields'])
+        self.STATE_FIELDS = set()
+        for owner in (self.OBJECT, self.UNREADY):
+            oa = c.adt(owner)
+            for v_ in (oa or {}).get('variants', []):
+                for f_ in v_['fields']:
+                    if _maybe_inner(f_):
+                        self.STATE_FIELDS.add('%s.%s' % (owner, f_['name']))
         # users guard: the local ADT with a Drop impl that calls a closure it carries
         self.DROPGUARD = None
         for a in c.adts:
@@ -148,7 +177,7 @@ class ManagedRoles:
         self.MANAGER_TRAIT = 'deadpool::managed::Manager'
         self._users_guard = None
         # the timeout wrapper: the one local coroutine of the managed module that calls Runtime::timeout
-        tw = [b for b in prog.bodies.values() if (b.path.startswith('deadpool::managed::') or b.path.startswith('<deadpool::managed::')) and b.is_coroutine
+        tw = [b for b in prog.bodies.values() if (b.path.startswith('deadpool::managed::') or b.path.startswith('<deadpool::managed::') or (' as deadpool::managed::' in b.path.split('>::')[0] and str(b.file).startswith('src/'))) and b.is_coroutine
               and any(blk.term.kind == 'call' and 'deadpool_runtime::Runtime::timeout' in blk.term.callee_names() for blk in b.blocks)]
         self.TIMEOUT_WRAPPER = tw[0] if len(tw) == 1 else None
         self.TIMEOUT_WRAPPER_FN = strip_generics(tw[0].j.get('parent', '')) if len(tw) == 1 else None
@@ -168,7 +197,8 @@ class ManagedRoles:
                   and adt_of(b.j.get('impl_self', '')) == self.UNREADY]
             self.UNREADY_DROP = _one(ds, 'Drop impl body of ' + self.UNREADY)
         # getter region: everything reachable from timeout_get inside the crate
-        self.GETTER = sorted(p for p in prog.region([self.TIMEOUT_GET.path]) if p.startswith('deadpool::') or p.startswith('<deadpool::'))
+        self.GETTER = sorted(p for p in prog.region([self.TIMEOUT_GET.path]) if p.startswith('deadpool::') or p.startswith('<deadpool::') or
+                             (' as deadpool::' in p.split('>::')[0] and str(prog.bodies[p].file).startswith('src/')))
         # return / take helpers: local functions called from Object::drop / Object::take that touch the semaphore
         self.RETURN = self._helpers(self.OBJ_DROP)
         self.TAKE = self._helpers(self.OBJ_TAKE)
@@ -330,6 +360,18 @@ class ManagedRoles:
         }
 
 
+def _amount(an, op):
+    """description of the amount of an update: the literal, or `len(..)` when the value is the length of a collection (also when it
+    reached the update through a parameter of an inlined helper: `size.sub(removed.len())`)"""
+    v = an.resolve_operand(op)
+    if op.kind != 'const' and 'len' not in v:
+        from .analysis import sources as _src
+        ls = [x for x in _src(an, op) if x[0] == 'call' and x[1].split('::')[-1] == 'len']
+        if ls and not any(x[0] in ('bin', 'const') for x in _src(an, op)):
+            return 'len(%s)' % v
+    return v
+
+
 def classify_write(an, stmt):
     """operator of a field update: returns (op, operand_desc): ('+=', '1'), ('-=', '1'), ('-=', 'len(..)'), ('=', desc)"""
     rv = stmt.rv
@@ -339,11 +381,11 @@ def classify_write(an, stmt):
             a, b = d[3].rv.ops
             same = a.kind != 'const' and a.place.key() == stmt.place.key()
             if same:
-                return ('+=' if d[3].rv.binop.startswith('Add') else '-=', an.resolve_operand(b))
+                return ('+=' if d[3].rv.binop.startswith('Add') else '-=', _amount(an, b))
     if rv.kind == 'bin' and rv.binop in ('Add', 'Sub', 'AddUnchecked', 'SubUnchecked'):
         a, b = rv.ops
         if a.kind != 'const' and a.place.key() == stmt.place.key():
-            return ('+=' if rv.binop.startswith('Add') else '-=', an.resolve_operand(b))
+            return ('+=' if rv.binop.startswith('Add') else '-=', _amount(an, b))
     # `x.f = x.f.saturating_sub(n)` / saturating_add / wrapping_*: the same update written with a std method (it differs from
     # the plain operator only where that would overflow, i.e. panic in a debug build)
     if rv.kind == 'use' and rv.ops[0].kind in ('move', 'copy') and not rv.ops[0].place.proj:
